@@ -240,6 +240,11 @@ def drawn_tick(x: Any) -> int:
     return -1
 
 
+def ghost_const(name: str, typ: Any = bytes) -> Any:
+    """A fixed but unknown value of the environment (same value at every use within one execution)."""
+    raise NotImplementedError("ghost constants have no run-time form")
+
+
 def typed(x: Any, t: Any) -> bool:
     return isinstance(x, t)
 
